@@ -38,6 +38,12 @@ pub fn check_frame(c: &FrameCase, st: &mut Stats) -> Result<(), String> {
     let mut ways: Vec<(String, Frame<'_>)> = vec![
         ("owned".into(), Frame::new(Address(c.addr), MsgType(c.ty), Data::try_new(c.data.clone()).unwrap())),
         ("borrowed".into(), Frame::new(Address(c.addr), MsgType(c.ty), Data::try_new(&c.data[..]).unwrap())),
+        ("owned with spare capacity".into(), {
+            // a vector that was grown, not sized exactly (len < capacity)
+            let mut v: Vec<u8> = Vec::with_capacity(c.data.len() + 13);
+            v.extend_from_slice(&c.data);
+            Frame::new(Address(c.addr), MsgType(c.ty), Data::try_new(v).unwrap())
+        }),
     ];
     if c.data.len() <= 2 {
         let donors = catch(|| {
@@ -63,17 +69,25 @@ pub fn check_frame(c: &FrameCase, st: &mut Stats) -> Result<(), String> {
     if let Ok(Ok(dec)) = catch(|| Frame::from_bytes(&crate::oracle::hex::ref_encode(c.addr ^ 0x0180, c.ty.wrapping_add(3), &c.data))) {
         ways.push(("data taken from a decoded frame".into(), Frame::new(Address(c.addr), MsgType(c.ty), dec.into_data())));
     }
-    for (how, f) in ways {
+    // the frame that is converted is the very object built above (a clone would be a fresh, exactly sized copy);
+    // comparisons use an independently built twin
+    let twin = Frame::new(Address(c.addr), MsgType(c.ty), Data::try_new(c.data.clone()).unwrap());
+    for (how, converted) in ways {
         let how = how.as_str();
+        let f = &twin;
+        if converted != *f {
+            return Err(format!("two frames built from the same fields ({how}) are not equal"));
+        }
         let r = catch(|| -> Result<(), String> {
-            let m = Message::from(f.clone());
-            // (1) identity
-            let back = Frame::from(m.clone());
-            if back != f {
-                return Err(format!("Frame -> Message -> Frame changed the frame ({how}): {f:?} -> {m:?} -> {back:?}"));
+            let m = Message::from(converted);
+            let got = M::from_message(&m);
+            let shown = format!("{m:?}");
+            // (1) identity - the very message object is converted back, not a copy of it
+            let back = Frame::from(m);
+            if back != *f {
+                return Err(format!("Frame -> Message -> Frame changed the frame ({how}): {f:?} -> {shown} -> {back:?}"));
             }
             // (2) table
-            let got = M::from_message(&m);
             if got != want {
                 return Err(format!(
                     "sig=table:type{}:len{}; frame {f:?} ({how}) is interpreted as {} but the protocol table says {}",
@@ -88,7 +102,7 @@ pub fn check_frame(c: &FrameCase, st: &mut Stats) -> Result<(), String> {
             candidates.push(M::Data { off: c.addr, data: c.data.clone() });
             let mut matching: Vec<M> = vec![];
             for cand in candidates {
-                if Frame::from(cand.to_message()) == f {
+                if Frame::from(cand.to_message()) == *f {
                     matching.push(cand);
                 }
             }
@@ -219,8 +233,9 @@ pub fn run(ctx: &Ctx) {
             let bytes = w.to_le_bytes();
             let addr = (z >> 48) as u16;
             let f = Frame::new(Address(addr), MsgType(ty), Data::try_new(bytes[..n].to_vec()).unwrap());
-            let fast_ok = match catch(|| Message::from(f.clone())) {
-                Ok(Message::Unknown(g)) => g == f,
+            let twin = Frame::new(Address(addr), MsgType(ty), Data::try_new(&bytes[..n]).unwrap());
+            let fast_ok = match catch(move || Message::from(f)) {
+                Ok(Message::Unknown(g)) => g == twin,
                 _ => false,
             };
             if !fast_ok {
